@@ -8,7 +8,16 @@ import (
 )
 
 func validateMaps(env *Environment, errorSink *validation.ErrorSink) *Environment {
+	// instantiated generic definitions that have been checked (reference cycles are reported by a later pass)
+	visitedInstantiations := make(map[TypeDefinition]bool)
 	Visit(env, func(self Visitor, node Node) {
+		if st, ok := node.(*SimpleType); ok && st.ResolvedDefinition != nil && len(st.ResolvedDefinition.GetDefinitionMeta().TypeArguments) > 0 &&
+			!visitedInstantiations[st.ResolvedDefinition] {
+			// A generic type instantiated with type arguments: a type argument may have ended up as a map key
+			visitedInstantiations[st.ResolvedDefinition] = true
+			self.Visit(st.ResolvedDefinition)
+		}
+
 		m, ok := node.(*Map)
 		if !ok {
 			self.VisitChildren(node)
@@ -24,7 +33,8 @@ func validateMaps(env *Environment, errorSink *validation.ErrorSink) *Environmen
 			}
 		}
 
-		errorSink.Add(validationError(m, "map key type must be a primitive scalar type"))
+		// (located at the key type: for a key supplied as a type argument that is where the argument was written)
+		errorSink.Add(validationError(m.KeyType, "map key type must be a primitive scalar type"))
 	})
 
 	return env
